@@ -279,6 +279,10 @@ def run_commuting(case):
         if scanned:
             _run_lib("tempo", system, hot_bath, rho0, start, dt, nsteps,
                      params, g["unique"], "memory")
+        if case["idx"] % 13 == 5:
+            # the System object was used with another time step before
+            oqupy.compute_dynamics(system, rho0, dt=2.5 * dt, num_steps=1,
+                                   progress_type="silent")
         # the caller's array may have any memory layout
         lay = [None, "F", None, "T"][(case["idx"] // 3) % 4]
         rho_in = rho0 if lay is None else (
